@@ -18,6 +18,9 @@ StartOpts == {[dl |-> d, stop |-> p, nb |-> FALSE, rin |-> 0, rout |-> 0, rerr |
 \* fork mode: the forked child destroys its copy of the handle and lives on; the parent's destroy must behave as ever
 ForkOpts == {[dl |-> d, stop |-> NoStop, nb |-> FALSE, rin |-> 0, rout |-> 0, rerr |-> 0, input |-> -1,
               term |-> t, self |-> FALSE, prog |-> "/bin/c", fork |-> TRUE] : d \in DlOpts, t \in {0, 2}}
+\* a deadline an hour away (in milliseconds: beyond 2^31 microseconds): the default policy waits for the child, it sends nothing
+FarOpts == {[dl |-> 3600000, stop |-> NoStop, nb |-> FALSE, rin |-> 0, rout |-> 0, rerr |-> 0, input |-> -1,
+             term |-> t, self |-> TRUE, prog |-> "/bin/c"] : t \in {0, 2}}
 FailOpts == {[dl |-> 0, stop |-> NoStop, nb |-> FALSE, rin |-> 0, rout |-> 0, rerr |-> 0, input |-> -1,
               term |-> 0, self |-> FALSE, prog |-> "/nonexistent"]}
 
@@ -34,7 +37,7 @@ NextL ==
   \/ Interrupt
 \* a child that closes its exit handle and lives on: destroy's wait then lasts until the child really ends, it is not signalled
 \* in the meantime (the library is blocked reaping); kept out of the liveness check below, where it means "never returns"
-Next == NextL \/ ChildCloseX(1)
+Next == NextL \/ ChildCloseX(1) \/ (ncalls = 1 /\ \E o \in FarOpts : Start(1, o))   \* (the far-away deadline is likewise kept out of the liveness check)
 
 Spec == Init /\ [][Next]_vars
 Export == ExportRet
